@@ -2,7 +2,7 @@
 (* Bounded design model of C32.  One state per input = (shape, delimiter, quote char, headers).   *)
 (* Two families of shapes are enumerated:                                                         *)
 (*   A  "boundary structure": up to MaxSegsA segments, row counts CountsA (straddling the 100-row  *)
-(*      sample), widths 0..MaxW, kinds KindsA, one dialect (comma, double quote);                  *)
+(*      sample), widths 0..MaxWA, kinds KindsA, one dialect (comma, double quote);                 *)
 (*   B  "cell content": up to MaxSegsB short segments (row counts CountsB), widths 0..MaxW, every  *)
 (*      cell kind, optionally one empty column inside the row (Holes), every dialect.             *)
 (* A shape grows by one segment per step (every prefix is itself an input), so that TLC's workers  *)
@@ -11,9 +11,9 @@
 (* that skip none / all of the leading blank rows) and rejects an output that lost a column.      *)
 (* The enumerated input space is written to OUT_FILE for the harness.                             *)
 EXTENDS CsvShape, TLC, Json, IOUtils, SequencesExt, FiniteSetsExt
-CONSTANTS MaxW, CountsA, KindsA, MaxSegsA, CountsB, MaxSegsB, Holes, Delims, Quotes
+CONSTANTS MaxW, MaxWA, CountsA, KindsA, MaxSegsA, CountsB, MaxSegsB, Holes, Delims, Quotes
 
-SegA == {<<n, w, k, 0>> : n \in CountsA, w \in 1..MaxW, k \in KindsA} \cup {<<n, 0, "e", 0>> : n \in CountsA}
+SegA == {<<n, w, k, 0>> : n \in CountsA, w \in 1..MaxWA, k \in KindsA} \cup {<<n, 0, "e", 0>> : n \in CountsA}
 SegB == {s \in {<<n, w, k, h>> : n \in CountsB, w \in 1..MaxW, k \in Kinds, h \in 0..MaxW} :
            /\ s[4] <= s[2]
            /\ s[4] > 0 => (Holes /\ s[3] # "e" /\ s[2] >= 2)}
@@ -37,7 +37,6 @@ Next == /\ UNCHANGED fam
               /\ \E s \in SegA : input' = [input EXCEPT !.segs = Append(@, s)]
            \/ fam = "B" /\ Len(input.segs) < MaxSegsB
               /\ \E s \in SegB : input' = [input EXCEPT !.segs = Append(@, s)]
-Reached == (fam = "A" => input \in FamilyA) /\ (fam = "B" => input \in FamilyB)
 SpecSane ==
   LET g == GridOf(input.segs, input.headers)
       h == input.headers
